@@ -7,6 +7,7 @@ import (
 	"strings"
 
 	"github.com/ajitpratap0/GoSQLX/pkg/gosqlx"
+	"github.com/ajitpratap0/GoSQLX/pkg/models"
 	"github.com/ajitpratap0/GoSQLX/pkg/sql/parser"
 
 	"verif/engine/common"
@@ -17,8 +18,11 @@ type seg struct {
 	name string
 	sql  string
 	ntok int
-	ok   bool   // strict parsing accepts it on its own
-	tree string // dump of its statements when ok
+	// cntOK: the parser's token count of the statement this segment was cut from equals its lexeme count (the tokenizer
+	// merges some keyword pairs and the converter splits only some of them again), so ntok can be trusted
+	cntOK bool
+	ok    bool   // strict parsing accepts it on its own
+	tree  string // dump of its statements when ok
 }
 
 var stmtStart = map[string]bool{"SELECT": true, "INSERT": true, "UPDATE": true, "DELETE": true, "CREATE": true, "ALTER": true, "DROP": true, "WITH": true,
@@ -46,6 +50,27 @@ func mkseg(name string, toks []sqlgen.Tok) seg {
 		s.ok = true
 		s.tree = sqlgen.DumpNorm(t.Statements)
 	}
+	s.cntOK = countable(toks)
+	return s
+}
+
+// countable reports whether the parser sees exactly one token per lexeme of toks.  It can only be asked of text the
+// parser accepts, so corruptions inherit the answer of the statement they were cut from (mksegFrom).
+func countable(toks []sqlgen.Tok) bool {
+	_, ptoks, err := parser.ParseBytesWithTokens([]byte(sqlgen.Render(toks, sqlgen.LSpaced)))
+	if err != nil {
+		return false
+	}
+	n := len(ptoks)
+	if n > 0 && ptoks[n-1].Type == models.TokenTypeEOF {
+		n--
+	}
+	return n == len(toks)
+}
+
+func mksegFrom(name string, toks, whole []sqlgen.Tok) seg {
+	s := mkseg(name, toks)
+	s.cntOK = countable(whole)
 	return s
 }
 
@@ -96,7 +121,7 @@ func pools() (valid, corrupt []seg) {
 			{"truncate-half", append([]sqlgen.Tok{}, s.Toks[:n/2]...)},
 		}
 		for _, cd := range cands {
-			c := mkseg(fmt.Sprintf("%s:%s", cd.kind, s.Kind), cd.toks)
+			c := mksegFrom(fmt.Sprintf("%s:%s", cd.kind, s.Kind), cd.toks, s.Toks)
 			if c.ok || len(cd.toks) == 0 {
 				continue
 			}
@@ -141,9 +166,18 @@ func checkScript(c *common.Ctx, segs []seg, trailing bool) {
 	}
 	// want is a concatenation of "[...]" dumps per segment; normalise both to a flat form
 	flat := func(s string) string { return strings.ReplaceAll(strings.ReplaceAll(s, "][", ", "), "], [", ", ") }
+	if flat(got) != flat(want) && nbad > 0 {
+		// one precise class first: a malformed segment whose leading tokens form a complete statement (the parser does
+		// not require separators between statements) contributes that statement's tree and one error for the rest
+		if kind := prefixKept(segs, flat(got), flat); kind != "" {
+			c.Fail("prefix-statement-kept@"+kind, fmt.Sprintf("a malformed segment starting with %s contributes the tree of its well-formed leading tokens:\n want %s\n got  %s", kind, common.Trim(flat(want), 400), common.Trim(flat(got), 400)))
+			goto errs
+		}
+	}
 	if flat(got) != flat(want) {
 		c.FailFeat("C12", "statements-differ", bad, fmt.Sprintf("recovery returns other statements than strict parsing of the well-formed segments:\n want %s\n got  %s", common.Trim(flat(want), 400), common.Trim(flat(got), 400)))
 	}
+errs:
 	if len(errs) != nbad {
 		k := "more"
 		if len(errs) < nbad {
@@ -151,29 +185,91 @@ func checkScript(c *common.Ctx, segs []seg, trailing bool) {
 		}
 		c.FailFeat("C12", "error-count:"+k, bad, fmt.Sprintf("%d malformed segments but %d errors: %v", nbad, len(errs), errs))
 	} else {
-		// each error names a token inside its own segment
-		start := 0
+		// each error names a token inside its own segment: by token index where the parser's token count of every
+		// segment is known, and by reported location (the script is one line) always
+		countable := true
+		for _, s := range segs {
+			countable = countable && s.cntOK
+		}
+		if !countable {
+			c.Count("token_index_clause_skipped", 1)
+		}
+		start, off := 0, 0
 		j := 0
 		for _, s := range segs {
 			end := start + s.ntok
 			if !s.ok {
 				var pe *parser.ParseError
 				if errors.As(errs[j], &pe) {
-					if pe.TokenIdx < start || pe.TokenIdx >= end+1 {
+					if countable && (pe.TokenIdx < start || pe.TokenIdx >= end+1) {
 						c.Fail("error-token-outside-segment@"+s.name, fmt.Sprintf("error %d names token %d, its segment spans tokens [%d,%d): %v", j, pe.TokenIdx, start, end, errs[j]))
+					}
+					if pe.Line == 1 && (pe.Column < off+1 || pe.Column > off+len(s.sql)+3) {
+						c.Fail("error-location-outside-segment@"+s.name, fmt.Sprintf("error %d is reported at column %d, its segment spans columns [%d,%d] (separator included): %v", j, pe.Column, off+1, off+len(s.sql)+3, errs[j]))
 					}
 				} else {
 					c.Fail("error-not-parse-error@"+s.name, fmt.Sprintf("error %d is not a *parser.ParseError: %T %v", j, errs[j], errs[j]))
 				}
 				j++
 			}
-			start = end + 1 // the separating semicolon
+			start = end + 1       // the separating semicolon
+			off += len(s.sql) + 3 // " ; "
 		}
 	}
 	c.Outcome(fmt.Sprintf("segments=%d bad=%d", len(segs), nbad))
 	if nbad > 0 && nbad < len(segs) {
 		c.NonTrivial()
 	}
+}
+
+// prefixKept reports whether got equals the expected trees once some malformed segments contribute the tree of one
+// of their strictly-parseable proper token prefixes; it returns the first word of the first such segment.
+func prefixKept(segs []seg, got string, flat func(string) string) string {
+	type alt struct{ tree, kind string }
+	alts := make([][]alt, len(segs))
+	for i, s := range segs {
+		if s.ok {
+			alts[i] = []alt{{s.tree, ""}}
+			continue
+		}
+		alts[i] = []alt{{"", ""}}
+		words := strings.Fields(s.sql) // LSpaced: one lexeme per word except string literals with blanks (none in these pools)
+		seen := map[string]bool{}
+		for k := 1; k < len(words); k++ {
+			if t, err := gosqlx.Parse(strings.Join(words[:k], " ")); err == nil {
+				d := sqlgen.DumpNorm(t.Statements)
+				if !seen[d] {
+					seen[d] = true
+					alts[i] = append(alts[i], alt{d, strings.ToUpper(words[0])})
+				}
+			}
+		}
+	}
+	var rec func(i int, acc, kind string, budget *int) string
+	rec = func(i int, acc, kind string, budget *int) string {
+		if *budget <= 0 {
+			return ""
+		}
+		if i == len(segs) {
+			*budget--
+			if kind != "" && flat(acc) == got {
+				return kind
+			}
+			return ""
+		}
+		for _, a := range alts[i] {
+			k := kind
+			if k == "" {
+				k = a.kind
+			}
+			if r := rec(i+1, acc+a.tree, k, budget); r != "" {
+				return r
+			}
+		}
+		return ""
+	}
+	budget := 4096
+	return rec(0, "", "", &budget)
 }
 
 // Check returns the C12 check.
@@ -183,24 +279,11 @@ func Check() *common.Check {
 		Level:     "exploration",
 		CrashSafe: true,
 		Rule: "scripts S1;...;Sn: all sequences of n<=2 over the full pool (9 valid statements - one per kind plus DESCRIBE / SHOW / REPLACE, which do not start with a recovery synchronisation keyword - and every failing corruption of them: first / second / last token deleted, middle token duplicated or replaced, truncated after 2, 3, 4 tokens and at half, none containing a statement-starting keyword after its first token), n<=3 over the valid statements and an even spread of 14 corruptions " +
-			"and n<=5 (quick) / n<=6 (thorough) over 2 valid + 3 corrupt, each with and without a trailing semicolon; plus all lexeme sequences of length <=3 (quick) / <=4 (thorough) over a 24-lexeme alphabet for termination and the iff clause. " +
+			"and n<=5 (quick) / n<=6 (thorough) over 2 valid + 3 corrupt, each with and without a trailing semicolon; every rejected proper prefix (up to the first inner statement-starting keyword) of every clause-option, DML and DDL statement of the sqlgen space, followed by SHOW TABLES / a SELECT / a malformed non-keyword segment, and between two neighbours; plus all lexeme sequences of length <=3 (quick) / <=4 (thorough) over a 24-lexeme alphabet for termination and the iff clause. " +
 			"distinct = distinct script text; non-trivial = script mixes well-formed and malformed segments",
-		Assume: []string{"a segment is well-formed iff gosqlx.Parse accepts it alone", "parser-token count of a segment = number of generator lexemes (verified at run time on the valid segments; the token-index clause is skipped when it does not hold)"},
+		Assume: []string{"a segment is well-formed iff gosqlx.Parse accepts it alone", "parser-token count of a segment = number of generator lexemes; verified at run time on the accepted statement each segment was cut from, and where it does not hold (keyword pairs the tokenizer merges) the token-index clause is replaced by the reported-column clause alone"},
 		Enumerate: func(e *common.Enum) {
 			valid, corrupt := pools()
-			// self-check of token counting on valid segments
-			countOK := true
-			for _, v := range valid {
-				_, toks, err := parser.ParseBytesWithTokens([]byte(v.sql))
-				if err != nil || len(toks)-1 != v.ntok {
-					if err != nil || len(toks) != v.ntok {
-						countOK = false
-					}
-				}
-			}
-			if !countOK {
-				e.Cap("token counting self-check failed: token-index clause not evaluated")
-			}
 			full := append(append([]seg{}, valid...), corrupt...)
 			var rec func(pool []seg, prefix []seg, max int, tag string)
 			rec = func(pool []seg, prefix []seg, max int, tag string) {
@@ -213,11 +296,6 @@ func Check() *common.Check {
 						key := fmt.Sprintf("%s|%v|%s", tag, trailing, strings.Join(names, ";"))
 						p := append([]seg{}, prefix...)
 						e.Do(key, func(c *common.Ctx) {
-							if !countOK {
-								for i := range p {
-									p[i].ntok = 1 << 20
-								}
-							}
 							checkScript(c, p, trailing)
 							c.Sample(key)
 						})
@@ -246,6 +324,55 @@ func Check() *common.Check {
 				}
 				rec(small, nil, max, "small")
 			}
+			// every rejected proper prefix of every clause-option / DML / DDL statement of the model grammar, between and
+			// before well-formed neighbours: each production's error path at the statement boundary (it must stop at its own
+			// semicolon, name a token of its own statement, and leave both neighbours alone)
+			var followers []seg
+			for _, v := range valid {
+				if strings.HasPrefix(v.name, "valid-nosync:SHOW") || strings.HasPrefix(v.name, "valid0:") {
+					followers = append(followers, v)
+				}
+			}
+			for _, c := range corrupt {
+				if strings.HasPrefix(c.name, "delete-first:") {
+					followers = append(followers, c)
+					break
+				}
+			}
+			seenPrefix := map[string]bool{}
+			prefixes := func(name string, s sqlgen.S) {
+				for n := 1; n < len(s.Toks); n++ {
+					if n > 1 && stmtStart[strings.ToUpper(s.Toks[n-1].S)] {
+						break // longer prefixes would contain a statement-starting keyword after their first token
+					}
+					toks := append([]sqlgen.Tok{}, s.Toks[:n]...)
+					pre := mksegFrom(fmt.Sprintf("prefix-%d:%s", n, name), toks, s.Toks)
+					if pre.ok || seenPrefix[pre.sql] {
+						continue
+					}
+					seenPrefix[pre.sql] = true
+					last := "prefix-last:" + strings.ToUpper(s.Toks[n-1].S)
+					for _, f := range followers {
+						p := []seg{pre, f}
+						p[0].name = last
+						key := "prefix|" + pre.sql + "|" + f.name
+						e.Do(key, func(c *common.Ctx) {
+							checkScript(c, p, false)
+						})
+					}
+					if len(followers) > 0 {
+						p := []seg{followers[0], pre, followers[len(followers)-1]}
+						p[1].name = last
+						key := "prefix-mid|" + pre.sql
+						e.Do(key, func(c *common.Ctx) {
+							checkScript(c, p, true)
+						})
+					}
+				}
+			}
+			sqlgen.ClauseOptions(prefixes)
+			sqlgen.DMLCases(prefixes)
+			sqlgen.DDLCases(prefixes)
 			// token soup: termination and the iff clause
 			alpha := []string{"SELECT", "FROM", "WHERE", "INSERT", "INTO", "VALUES", "UPDATE", "SET", "DELETE", "WITH", "AS", "(", ")", ",", ";", "*", "=", "a", "1", "'s'", "AND", "NOT", "JOIN", "CASE"}
 			K := 3
